@@ -1,7 +1,5 @@
 //go:build !verif
 
-package fun
-
-func verifAt(string) {}
+package dt
 
 func verifGuard(string, any) {}
